@@ -12,7 +12,7 @@ import models
 import tflsum
 import vlib
 
-FAMS = ["mixed_cpu", "unsupported", "mixed_cpu", "diamond", "single", "unsupported", "lut_heavy", "conv_chain"]
+FAMS = ["mixed_cpu", "unsupported", "ew_dag", "multi_custom", "mixed_cpu", "diamond", "single", "unsupported", "lut_heavy", "conv_chain"]
 
 
 def h(*parts):
